@@ -326,6 +326,7 @@ pub fn check(fam: &'static dyn Family, tier: Tier, workers: usize) -> CheckOutco
     let coverage = serde_json::json!({
         "evaluations": evaluations,
         "distinct_nontrivial": stats.nontrivial.len(),
+        "distinct_counts_are_lower_bounds": "signature sets are capped at 400000 members per worker process; beyond that the counts are lower bounds",
         "rule": info.rule,
         "samples": stats.samples,
         "exhaustive": exhaustive,
@@ -526,10 +527,10 @@ pub fn hashes_main(fam: &dyn Family, master: u64, start: u64, count: u64) -> i32
             st.runs = 0;
             let vs = fam.judge(scn, &mut st);
             let mut f = crate::rng::Fnv::new();
-            for h in &st.interleavings {
+            for h in st.interleavings.iter() {
                 f.write_u64(*h);
             }
-            for h in &st.states {
+            for h in st.states.iter() {
                 f.write_u64(*h);
             }
             for h in &st.log_hashes {
